@@ -183,6 +183,20 @@ def run(ctx):
         ctx.nontrivial.add(("perturb", i))
     ntw = 0   # twin builds (two independently constructed simulations) are NOT required to compare equal: heap residue in
               # ri_whfast.p_jh is persisted content; only sim-vs-own-copy/restored clauses are checked (eq_oracle)
+    # Simulationarchive histories in which arrays appear and disappear between snapshots: restored snapshot vs live simulation
+    import c05_archive
+    hists = c05_archive.histories(rebound, rng, thorough=ctx.thorough)
+    nsnap = 0
+    for h in hists:
+        try:
+            f, c = c05_archive.run_history(rebound, gen, h, want_streams=True)
+        except Exception as e:
+            f, c = [{"key": "archive:exception", "history": h["label"], "detail": repr(e)}], []
+        fails += f
+        nsnap += len(c)
+        ctx.case(key=("archive", h["label"]))
+    ctx.evaluations += nsnap
+    ctx.obligation("oracle:archive histories produced >= 60 restored-vs-live snapshot comparisons", nsnap >= 60, str(nsnap))
     nanp = c17_lib.nan_probe(rebound)
     szp = c17_lib.signed_zero_probe(rebound)
     ctx.obligation("oracle:NaN / signed-zero probes ran", "particle_x_nan_sim_eq_copy" in nanp and "particle_z_pm0_sim_eq_copy" in szp, str((nanp, szp))[:300])
